@@ -960,9 +960,9 @@ def run(ctx, replay=None):
             except Exception as e:
                 ctx.notes.append("targeting probe failed: %s" % str(e)[:300])
 
-    n_mf = ctx.n(14, 80)
+    n_mf = ctx.n(10, 80)
     n_gp = ctx.n(4, 16)
-    n_sim = ctx.n(10, 60)
+    n_sim = ctx.n(6, 60)
     cases = list(corpus) + [c for c in targeted if c["config"] in T.MODEL_FREE]
     for v in MODEL_FREE_VARIANTS:
         k = n_mf * (4 if v[2] in boost else 1)
@@ -996,7 +996,9 @@ def run(ctx, replay=None):
     ctx.sample(dict(kind="twin GP case", case={k: v for k, v in gp_cases[-1].items() if k != "other_kinds"}))
     ctx.sample(dict(kind="twin simulated experiment", case=sim_cases[0]))
 
-    batches = batches_of(gp_cases, ctx.n(6, 16)) + batches_of(cases, ctx.n(6, 28)) + batches_of(sim_cases, ctx.n(2, 6))
+    # expensive cases first, so that they land in different batches
+    gp_cases.sort(key=lambda c: -c.get("steps", 0))
+    batches = batches_of(gp_cases, ctx.n(8, 16)) + batches_of(cases, ctx.n(6, 28)) + batches_of(sim_cases, ctx.n(2, 6))
     results = run_twins(batches, hashseeds, jobs=ctx.n(8, 16), timeout=ctx.n(1200, 3000))
     for cs, (ra, rb) in zip(batches, results):
         for c, a, b in zip(cs, ra, rb):
